@@ -159,9 +159,9 @@ def run(tier):
                                              '100', 'nan', '1e5', 'inf', '-5', '', '7654', '45.6', '4:30')]
         done = set(CODES) | set(extra)
         wide = [c for c in sorted(set(codes) | set(lang.REALISTIC)) if c not in done and len(c) <= 10 and c == c.strip()]
-        for c in wide[::3 if quick else 1]:
+        for c in wide:
             jobs.append((c, False, PROBES))
-        rep.setcov('codes_probed', len(wide[::3 if quick else 1]))
+        rep.setcov("codes_probed", len(wide))
         # spelling groups (letter case): one process serves all spellings of a discipline, in rotating and reversed order
         for c in CODES:
             grp = []
